@@ -24,6 +24,10 @@ type peerScript struct {
 	Frames []Frame `json:"frames"`
 	Exit   bool    `json:"exit"`
 	Log    string  `json:"log"`
+	// handshake histories / decode cases
+	BadInits []string `json:"badInits,omitempty"`
+	Method   string   `json:"method,omitempty"`
+	Docs     []string `json:"docs,omitempty"`
 }
 
 type outItem struct {
@@ -68,6 +72,7 @@ func peerMain() {
 	}()
 	dec := json.NewDecoder(bufio.NewReaderSize(os.Stdin, 1<<20))
 	seen := map[string]bool{}
+	inits, docs := 0, 0
 	for {
 		var raw json.RawMessage
 		if err := dec.Decode(&raw); err != nil {
@@ -77,7 +82,17 @@ func peerMain() {
 		_ = json.Unmarshal(raw, &in)
 		switch {
 		case in.Method == "initialize":
-			out <- outItem{b: []byte(initAnswer(in.ID) + "\n")}
+			if inits < len(sc.BadInits) {
+				out <- outItem{b: []byte(sc.BadInits[inits] + "\n")}
+			} else {
+				out <- outItem{b: []byte(initAnswer(in.ID) + "\n")}
+			}
+			inits++
+		case sc.Method != "" && in.Method == sc.Method && in.Params.Cursor != "next":
+			if docs < len(sc.Docs) {
+				out <- outItem{b: []byte(sc.Docs[docs] + "\n")}
+			}
+			docs++
 		case in.Method == "":
 			j, _ := json.Marshal(answerObs{ID: compact(in.ID), Result: len(in.Result) > 0})
 			logf.Write(append(j, '\n'))
